@@ -964,6 +964,8 @@ class Ev:
             return v.sym_truth(self, n, mod)
         if isinstance(v, str):
             return bool(v)
+        if v is sp.true or v is sp.false:
+            return v is sp.true
         if is_sym(v) and v.is_number:
             return bool(v != 0)
         if is_sym(v) and v.is_positive:
@@ -1016,6 +1018,17 @@ class Ev:
 
         if isinstance(op, (ast.Eq, ast.NotEq)) and ((a is None) != (b is None)):
             return isinstance(op, ast.NotEq)
+        for u, v, flipped in ((a, b, False), (b, a, True)):
+            # a small array of numbers compared with a number: elementwise, a boolean array
+            if isinstance(u, ArrV) and is_sym(v) and v.is_number and isinstance(op, (ast.Eq, ast.NotEq, ast.Lt, ast.LtE, ast.Gt, ast.GtE)) \
+                    and u.shape and all(is_sym(c) and c.is_number for c in list(u.cells.values()) + [u.fill]):
+                import operator as _op
+                fn = {ast.Eq: _op.eq, ast.NotEq: _op.ne, ast.Lt: _op.lt, ast.LtE: _op.le, ast.Gt: _op.gt, ast.GtE: _op.ge}[type(op)]
+                one = (lambda c: sp.true if (fn(v, c) if flipped else fn(c, v)) else sp.false)
+                out = ArrV(u.batch, u.shape, one(u.fill), batch_last=u.batch_last)
+                out.cells = {kk: one(c) for kk, c in u.cells.items()}
+                out.is_cond = True
+                return out
         if is_sym(a) and is_sym(b) and not (a.is_number and b.is_number) and isinstance(op, (ast.Eq, ast.NotEq, ast.Lt, ast.LtE, ast.Gt, ast.GtE)):
             # the sign of the difference is known from the declared signs of the atoms (weights, volumes, counts are positive)
             d = a - b
@@ -2996,8 +3009,29 @@ def lib_next(ev, a, k, n, mod):
     raise RaisedV("StopIteration")
 
 
+def _bool_reduce(ev, v, k, n, mod, how):
+    """any/all of a boolean small array (cells sp.true / sp.false), optionally along one constant axis"""
+    axis = k.get("axis")
+    cells = {key: v.get(key) for key in itertools.product(*[range(d) for d in v.shape])}
+    if not all(c is sp.true or c is sp.false or c in (True, False) for c in cells.values()):
+        raise ev.err(f"{how}() of an array whose elements are not known truth values", n, mod)
+    red = any if how == "any" else all
+    if axis is None:
+        return red(bool(c) for c in cells.values())
+    ax = _const_int(axis) % len(v.shape)
+    shape = tuple(d for i, d in enumerate(v.shape) if i != ax)
+    out = ArrV(v.batch, shape, batch_last=v.batch_last)
+    for key in itertools.product(*[range(d) for d in shape]):
+        vals = [bool(cells[key[:ax] + (j,) + key[ax:]]) for j in range(v.shape[ax])]
+        out.cells[key] = sp.true if red(vals) else sp.false
+    out.is_cond = True
+    return out
+
+
 def lib_any(ev, a, k, n, mod):
     v = a[0]
+    if isinstance(v, ArrV) and getattr(v, "is_cond", False):
+        return _bool_reduce(ev, v, k, n, mod, "any")
     if isinstance(v, bool):
         return v
     if hasattr(v, "sym_any"):
@@ -3009,7 +3043,12 @@ def lib_any(ev, a, k, n, mod):
     raise ev.err("any() of a non-constant", n, mod)
 
 
+lib_any.kw = {"axis"}
+
+
 def lib_all(ev, a, k, n, mod):
+    if isinstance(a[0], ArrV) and getattr(a[0], "is_cond", False):
+        return _bool_reduce(ev, a[0], k, n, mod, "all")
     v = a[0]
     if isinstance(v, bool):
         return v
@@ -3018,6 +3057,9 @@ def lib_all(ev, a, k, n, mod):
     if isinstance(v, Tup):
         return all(ev.truth(i, n, mod) for i in v.items)
     raise ev.err("all() of a non-constant", n, mod)
+
+
+lib_all.kw = {"axis"}
 
 
 def lib_enumerate(ev, a, k, n, mod):
